@@ -201,7 +201,10 @@ DENSITY = {"core": 1, "regclasses": 2, "decoders": 2, "abstract": 3, "concrete":
 
 def select(stride, offset=0):
     out = []
+    cats = os.environ.get("MUT_CATS")          # e.g. MUT_CATS=abstract,core restricts the categories
     for cat, lst in sorted(all_sites().items()):
+        if cats and cat not in cats.split(","):
+            continue
         st = max(1, stride * DENSITY[cat])
         out += [m for i, m in enumerate(lst) if i % st == offset % st]
     return out
